@@ -343,6 +343,7 @@ func (c *graphCtx) rewrite(depth int) *Rewrite {
 		for i := 0; i < n; i++ {
 			r.Kids = append(r.Kids, c.rewrite(depth+1))
 		}
+		c.twins(r, depth)
 		return r
 	case k <= 10:
 		n := rapid.IntRange(2, 3).Draw(c.t, "n")
@@ -350,9 +351,38 @@ func (c *graphCtx) rewrite(depth int) *Rewrite {
 		for i := 0; i < n; i++ {
 			r.Kids = append(r.Kids, c.rewrite(depth+1))
 		}
+		c.twins(r, depth)
 		return r
 	default:
-		return &Rewrite{Kind: Difference, Kids: []*Rewrite{c.rewrite(depth + 1), c.rewrite(depth + 1)}}
+		r := &Rewrite{Kind: Difference, Kids: []*Rewrite{c.rewrite(depth + 1), c.rewrite(depth + 1)}}
+		c.twins(r, depth)
+		return r
+	}
+}
+
+// twins: in a fifth of the operators below the depth limit, two operands are replaced by operators of the SAME kind
+// over fresh leaves ("(b and c) or (d and e)"): sibling occurrences of one operator kind are distinct nodes with their
+// own operands, which an identity scheme derived from the parent or from the position can confuse.
+func (c *graphCtx) twins(r *Rewrite, depth int) {
+	maxDepth := 2
+	if c.o.Big || c.depth3 {
+		maxDepth = 3
+	}
+	if depth+1 >= maxDepth || rapid.IntRange(0, 4).Draw(c.t, "twins") != 0 {
+		return
+	}
+	kind := rapid.SampledFrom([]string{Union, Intersection, Difference}).Draw(c.t, "twinKind")
+	leaf := func() *Rewrite {
+		if c.cur > 0 && rapid.Bool().Draw(c.t, "twinLeafComputed") {
+			return &Rewrite{Kind: Computed, Rel: rapid.SampledFrom(c.rels[:c.cur]).Draw(c.t, "twinRel")}
+		}
+		return &Rewrite{Kind: TTU, Rel: rapid.SampledFrom(c.rels).Draw(c.t, "twinTTU"), Tupleset: "p"}
+	}
+	for i := 0; i < 2 && i < len(r.Kids); i++ {
+		if r.Kids[i].CountThis() > 0 {
+			continue // keep the direct assignments where they were drawn (nThis bookkeeping)
+		}
+		r.Kids[i] = &Rewrite{Kind: kind, Kids: []*Rewrite{leaf(), leaf()}}
 	}
 }
 
